@@ -80,15 +80,21 @@ package document
 //@   assigns nothing
 //@   safety all
 
-// Contains is the boundary to encoding/asn1: its acceptance is named by an uninterpreted
-// predicate over the two raw SecurityInfos encodings.
-//@ uf secInfosSubset(seq, seq) bool
+// Contains: every element of the subset (by raw encoding, as encoding/asn1 splits the SET) occurs in the main set.
+//@ spec func siIn(main seq, x seq) bool { exists j :: 0 <= j && j < asn1Count(main) && seqid(asn1ElemRaw(main, j), x) }
+//@ spec func secInfosSubset(sub seq, main seq) bool { forall i :: 0 <= i && i < asn1Count(sub) ==> siIn(main, asn1ElemRaw(sub, i)) }
 //@ func (secInfos *SecurityInfos) Contains
 //@   props C02
-//@   trusted
 //@   requires secInfos != nil && subsetSecInfos != nil
-//@   ensures result == nil ==> secInfosSubset(subsetSecInfos.RawData, secInfos.RawData)
+//@   ensures "every-subset-element-present": result == nil ==> secInfosSubset(subsetSecInfos.RawData, secInfos.RawData)
+//@   loop 1 invariant forall k :: 0 <= k && k <= rangeindex1 ==> siIn(secInfos.RawData, asn1ElemRaw(subsetSecInfos.RawData, k))
+//@   loop 2 invariant "not-found-yet": !isPresent
+//@   loop 2 invariant "outer-index-nonneg": 0 <= rangeindex1
+//@   loop 2 invariant "outer-index-in-range": rangeindex1 < len(tmpSubsetSecInfos)
+//@   loop 2 invariant tmpSubsetSecInfo.Raw === asn1ElemRaw(subsetSecInfos.RawData, rangeindex1)
+//@   loop 2 invariant forall k :: 0 <= k && k < rangeindex1 ==> siIn(secInfos.RawData, asn1ElemRaw(subsetSecInfos.RawData, k))
 //@   assigns nothing
+//@   safety all
 
 //@ func (doc *Document) Verify
 //@   props C02
